@@ -18,9 +18,16 @@ def groups(nmax, tiers, sfx):
         dict(name='c2s' + sfx, harness='h_c2s.cpp', tus=SM + ['src/client/QXmppOutgoingClient.cpp', 'src/base/QXmppUtils.cpp'], models=MODELS, shadow_task=True,
              cxxdefs={'VP_NMAX': nmax}, loop_bounds=LB, instances=[I('c2s_' + e, nmax, tiers) for e in C2S]),
     ]
+SESS = ['ack_newsession_ack', 'ack_newsession_resume']
+def sess(nmax, tiers, sfx):
+    cap = 2 * nmax + 6   # socket log: resend on the new session + <r/>, one send + <r/>, resend on resumption + <r/>
+    return [dict(name='sess' + sfx, harness='h_sess.cpp', tus=SM, models=MODELS, shadow_task=True, cxxdefs={'VP_NMAX': nmax, 'VP_SENT_CAP': cap},
+                 loop_bounds={r'checkLastLog': cap + 2},
+                 instances=[I(e, nmax, tiers, cdefs={'MCAP': nmax + 1, 'SENT_CAP': cap}, mem_gb=6, timeout_thorough_s=900,
+                              bound='pre-state as in the steps with n <= %d and stream management active; events: <a h=H1/>, connection loss, enable on a new session, optionally one send, then <a h=H2/> resp. resumed(h=H2); H1, H2 arbitrary' % nmax) for e in SESS])]
 SPEC = dict(
     property='C09',
-    groups=groups(4, ('quick', 'thorough'), '') + groups(6, ('thorough',), '6'),
+    groups=groups(4, ('quick', 'thorough'), '') + sess(3, ('quick', 'thorough'), '') + groups(6, ('thorough',), '6'),
     bounds=[
         'one event per instance, applied to an ARBITRARY pre-state satisfying the representation invariant INV: the unacknowledged store holds n <= 4 (quick) / n <= 6 (thorough groups *6) stanzas with consecutive keys lastOut-n+1..lastOut, n <= lastOut, none of them reported yet; enabled flag arbitrary; lastOut, lastIn < 2^31',
         'every step asserts INV again for its post-state and h_initial proves INV for a fresh manager, so by induction the per-event claims hold along every event sequence that never has more than 4 (6) unacknowledged stanzas pending',
